@@ -19,10 +19,10 @@ LEVEL_TEXT = ('each reader (trash-list, trash-restore under 3 sort modes, trash-
               'listed, offered, restored, removed and purged among the well-formed entries must equal the run on the directory without the neighbours')
 LEVEL_NOTE = 'trusted: the shim\'s directory-order seam (listdir/scandir results are permuted); exit status and the fate of the malformed entries are don\'t-care'
 RULE = ('W in {1 home entry, 1 home + 1 volume entry, 2 home entries} x M subsets (|M|<=1 quick, <=2 thorough) of {non-.trashinfo file, empty, header only, binary, '
-        'non-UTF-8, no Path, no DeletionDate, bad date, info without payload, payload without info, directory named x.trashinfo} x all permutations of info/ (<= 4!) x '
+        'non-UTF-8, no Path, no DeletionDate, bad date, the same two sharing the Path of a well-formed entry, info without payload, payload without info, directory named x.trashinfo} x all permutations of info/ (<= 4!) x '
         'readers {list, restore date|path|none, rm exact, rm *, empty, empty 0, empty 7}; non-trivial = a malformed neighbour was read before a well-formed entry; '
         'distinct = (reader, neighbour kinds, outcome)')
-MK = ['nontrashinfo', 'empty', 'header', 'binary', 'nonutf8', 'nopath', 'nodate', 'baddate', 'nopayload', 'orphan', 'dirinfo']
+MK = ['nontrashinfo', 'empty', 'header', 'binary', 'nonutf8', 'nopath', 'nodate', 'baddate', 'nopayload', 'orphan', 'dirinfo', 'nodate-samepath', 'baddate-samepath']
 READERS = ['list', 'restore-date', 'restore-path', 'restore-none', 'rm-exact', 'rm-star', 'empty', 'empty0', 'empty7']
 WSETS = ['h1', 'h1+v1', 'h2']
 TD = scen.HOME_TRASH
@@ -84,6 +84,10 @@ def build(ws, ms):
             scen.add_trashed(W, TD, 'n-nodate', None, raw='[Trash Info]\nPath=/home/u/w/nodate\n')
         elif m == 'baddate':
             scen.add_trashed(W, TD, 'z-baddate', None, raw='[Trash Info]\nPath=/home/u/w/baddate\nDeletionDate=never\n')
+        elif m == 'nodate-samepath':
+            scen.add_trashed(W, TD, 'mid_1', None, raw='[Trash Info]\nPath=/home/u/w/mid\n')
+        elif m == 'baddate-samepath':
+            scen.add_trashed(W, TD, 'mid_2', None, raw='[Trash Info]\nPath=/home/u/w/mid\nDeletionDate=2024-13-45T99:00:00\n')
         elif m == 'nopayload':
             scen.add_trashed(W, TD, 'z-nopayload', '/home/u/w/nopayload', '2020-01-01T00:00:00', payload=None)
         elif m == 'orphan':
@@ -112,7 +116,7 @@ def observe(ws, ms, reader, perm):
             r0 = sb.run(['trash-restore', '--sort', so, '/'], plan=plan, cwd='/', stdin='\n')
             listing = scen.parse_restore_listing(r0.out)
             target = ents[-1]
-            idx = [i for (i, d, p) in listing if p == target[2]]
+            idx = [i for (i, d, p) in listing if p == target[2] and d == target[3].replace('T', ' ')]
             for td, nm, loc, d in ents:
                 obs['offered:' + nm] = sum(1 for (i, dd, p) in listing if p == loc and dd == d.replace('T', ' '))
             if len(idx) == 1:
